@@ -40,6 +40,19 @@ pub struct Model {
 }
 
 impl Model {
+    /// table specifications for the Lean image checker (`img check` / `img recover` lines)
+    pub fn tablespecs(&self) -> String {
+        let mut v = vec![];
+        for (i, t) in self.t.iter().enumerate() {
+            let l: Vec<(Vec<u8>, Vec<u8>)> = t.iter().map(|(k, v)| (k.to_le_bytes().to_vec(), v.clone())).collect();
+            v.push(format!("t{i}:normal:u64:bytes:{}:{:016x}", l.len(), crate::table::dump_hash(&l)));
+        }
+        let m: Vec<(Vec<u8>, Vec<Vec<u8>>)> = self.m.iter().map(|(k, s)| (k.to_le_bytes().to_vec(), s.iter().map(|x| x.to_le_bytes().to_vec()).collect())).collect();
+        let total: usize = m.iter().map(|e| e.1.len()).sum();
+        v.push(format!("m0:multimap:u64:u64:{}:{}:{:016x}", m.len(), total, crate::mm::dump_hash(&m)));
+        v.join(" ")
+    }
+
     pub fn digest(&self) -> String {
         let mut h: u64 = 0;
         for (i, t) in self.t.iter().enumerate() {
@@ -825,6 +838,7 @@ impl World {
         self.backend = MemBackend::new(old.data.clone());
         self.backend.mon.record.store(old.mon.record.load(std::sync::atomic::Ordering::SeqCst), std::sync::atomic::Ordering::SeqCst);
         self.backend.mon.log.lock().unwrap().append(&mut old.mon.log.lock().unwrap());
+        self.backend.mon.record_calls.store(old.mon.record_calls.load(std::sync::atomic::Ordering::SeqCst), std::sync::atomic::Ordering::SeqCst);
         for x in old.mon.contract_violations.lock().unwrap().iter() {
             out.oracle_fail(format!("backend-contract|{x}"));
         }
